@@ -483,6 +483,9 @@ func (e exec) Do(line string) string {
 			f = f[1:] // first field is the sentence
 		}
 		k := f[0]
+		if op == "escb" && !strings.HasPrefix(out, "PANIC") && out != "HANG" && out != "bad-op" {
+			k = "text" // the output is the printed text itself
+		}
 		if k == "err" && len(f) > 1 {
 			k = "err-" + f[1]
 		}
